@@ -213,6 +213,26 @@ static void scalar_shard(long shard, void *arg) {
     }
 }
 
+/* IDNA2008 contextual code points (RFC 5892 appendix A: ZWNJ, ZWJ, MIDDLE DOT, Greek keraia, Hebrew geresh / gershayim, Katakana middle dot) are valid
+ * only next to certain neighbours: every one of them between every ordered pair of 34 neighbours (letters of the scripts concerned, viramas of six
+ * scripts, ASCII) and after a virama; the independent conversion decides, the library must follow it for the U-label and agree on the A-label. */
+static void contextual_shard(long shard, void *arg) {
+    (void)arg;
+    static const char *const CTX[7] = { "\xe2\x80\x8c", "\xe2\x80\x8d", "\xc2\xb7", "\xcd\xb5", "\xd7\xb3", "\xd7\xb4", "\xe3\x83\xbb" };
+    static const char *const NB[34] = { "l", "a", "1", "\xe0\xa4\x95", "\xe0\xa4\xae", "\xe0\xa5\x8d", "\xe0\xa6\x95", "\xe0\xa7\x8d", "\xe0\xae\x95", "\xe0\xaf\x8d", "\xe0\xb6\x9a", "\xe0\xb7\x8a",
+        "\xe0\xb4\x95", "\xe0\xb5\x8d", "\xe0\xb2\x95", "\xe0\xb3\x8d", "\xd8\xa8", "\xd9\x84", "\xd8\xa7", "\xd9\x86", "\xce\xb1", "\xce\xb2", "\xd7\x90", "\xd7\x91", "\xe3\x82\xa2", "\xe3\x81\x82", "\xe4\xb8\xad",
+        "\xd0\xb6", "\xc3\xa9", "\xd9\xa1", "\xdb\xb1", "-", "\xea\xb0\x80", "" };
+    const char *c = CTX[shard]; char d[96];
+    for (int x = 0; x < 34; x++) for (int y = 0; y < 34; y++) {
+        snprintf(d, sizeof d, "%s%s%s.com", NB[x], c, NB[y]); check_idn("contextual", d);
+        snprintf(d, sizeof d, "%s%s%s%s.com", NB[x], NB[y], c, NB[x]); check_idn("contextual", d);       /* X Y c X : virama second */
+        snprintf(d, sizeof d, "a.%s%s%s", NB[x], c, NB[y]); check_idn("contextual", d);
+        MC_ADD(C_NEG, 3);
+    }
+    /* Arabic-Indic and extended Arabic-Indic digits may not be mixed (shard 0 only) */
+    if (shard == 0) for (int a = 0; a < 10; a++) for (int b = 0; b < 10; b++) { snprintf(d, sizeof d, "\xd8\xa8\xd9%c\xdb%c.com", 0xa0 + a, 0xb0 + b); check_idn("contextual", d); snprintf(d, sizeof d, "\xd8\xa8\xd9%c\xd9%c.com", 0xa0 + a, 0xa0 + b); check_idn("contextual", d); MC_ADD(C_NEG, 2); }
+}
+
 static int do_replay(void) {
     mc_replay_t r; if (mc_load_replay(mc_replay, &r)) return 2;
     mc_replay_hit = 0; char d[MC_CASEMAX + 1]; memcpy(d, r.in, (size_t)r.len); d[r.len] = 0; check_idn(r.sub, d);
@@ -235,6 +255,7 @@ int main(int argc, char **argv) {
     if (corpus_load()) return 2;
     { static const int PH[] = { CP_LONGIDN, CP_ALTDOT, CP_LABELLEN, CP_WHOLEDOM, CP_DEPTH };
       for (unsigned i = 0; i < sizeof PH / sizeof PH[0]; i++) { L5PH = PH[i]; char nm5[80]; snprintf(nm5, sizeof nm5, "corpus: %.60s", corpus_name(L5PH)); mc_parallel(nm5, corpus_shards(L5PH), l5_shard, NULL); } }
+    mc_parallel("contextual: 7 CONTEXTJ/CONTEXTO code points between every ordered pair of 34 neighbours (letters, viramas of six scripts, digits), 3 shapes", 7, contextual_shard, NULL);
     mc_parallel("scalars: every Unicode scalar value U+0080..U+10FFFF as a one-character label and after a letter, before .com", 0x110000 / 0x1000, scalar_shard, NULL);
     mc_parallel("pairs: every ordered pair of long domains sharing a >= 255-byte prefix, second one right after the first", 48, pair_shard, NULL);
     mc_parallel("pairs: every ordered pair of the 1296 domains b.XY, second one right after the first", 1296, shortpair_shard, NULL);
